@@ -194,14 +194,29 @@ where
         for order in 0..=a.len() {
             let dn = pa.derivative_n(order);
             same(&dn, &expect, Some(a.len().saturating_sub(order)), &format!("derivative_n({})", order))?;
-            if !expect.is_empty() {
-                for &x in dom.pts.iter().take(3) {
-                    ensure!(pa.derivative_at(x, order).ieq(&m_eval(&expect, x)), "derivative_at(x, {})", order);
-                }
+            // every order 0..deg+1 (the last one is the zero polynomial: value 0, not a panic)
+            for &x in dom.pts.iter().take(3) {
+                let got = catch(|| pa.derivative_at(x, order)).map_err(|p| format!("derivative_at(x, {}) of {:?} panicked: {}", order, a, p))?;
+                let want = if expect.is_empty() { T::zero() } else { m_eval(&expect, x) };
+                ensure!(got.ieq(&want), "derivative_at({:?}, {}) = {:?} expected {:?}", x, order, got, want);
             }
             expect = m_deriv(&expect, from.as_ref());
         }
         same(&pa.derivative(), &m_deriv(a, from.as_ref()), Some(a.len() - 1), "derivative()")?;
+    }
+    if a.is_empty() {
+        // the empty polynomial is the zero polynomial: differentiating or trimming it gives the empty polynomial again
+        let e = Polynomial::<T>::new(vec![]);
+        let d = catch(|| e.derivative()).map_err(|p| format!("derivative() of the empty polynomial panicked: {}", p))?;
+        ensure!(d.size() == 0, "derivative() of the empty polynomial has {} coefficients", d.size());
+        for order in 0..3 {
+            let d = catch(|| e.derivative_n(order)).map_err(|p| format!("derivative_n({}) of the empty polynomial panicked: {}", order, p))?;
+            ensure!(d.size() == 0, "derivative_n({}) of the empty polynomial has {} coefficients", order, d.size());
+            let v = catch(|| e.derivative_at(dom.pts[0], order + 1)).map_err(|p| format!("derivative_at(x, {}) of the empty polynomial panicked: {}", order + 1, p))?;
+            ensure!(v.izero(), "derivative_at of the empty polynomial = {:?}", v);
+        }
+        let mut t = Polynomial::<T>::new(vec![]);
+        catch(move || { t.trim(); t.size() }).map_err(|p| format!("trim() of the empty polynomial panicked: {}", p)).and_then(|n| if n == 0 { Ok(()) } else { Err("trim() of the empty polynomial produced coefficients".to_string()) })?;
     }
     if !a.is_empty() && !b.is_empty() {
         // linearity and product rule, as identities between results of the real operations
@@ -549,6 +564,34 @@ fn main() {
                 }).collect();
                 acc.nontriv("evaluation at a point of extreme magnitude");
                 judge(acc, idx, || format!("extreme points a={:?}", a), || extreme_eval_case(&a));
+            },
+        );
+    }
+    {
+        // eval has no Zero bound on T, so it cannot return the value 0 of the empty (zero) polynomial and panics instead; every
+        // empty result (p * empty, empty + empty, a derivative beyond the degree) inherits that. Repairing it means changing
+        // the bound of a public method; recorded as a known finding instead (known_findings.txt).
+        let space = "value of the empty polynomial (known finding)";
+        ctx.known_finding_space(space);
+        ctx.lattice(
+            space,
+            2,
+            |i| format!("{}", i),
+            |i, acc| {
+                acc.nontriv("eval of an empty polynomial");
+                let key = || if i == 0 { "eval-of-empty Polynomial::<f64>::empty().eval(2.0)".to_string() } else { "eval-of-empty (Polynomial::new(vec![1.0, 2.0]) * Polynomial::empty()).eval(2.0)".to_string() };
+                let res = catch(|| {
+                    if i == 0 {
+                        Polynomial::<f64>::empty().eval(2.0)
+                    } else {
+                        (Polynomial::new(vec![1.0, 2.0]) * Polynomial::<f64>::empty()).eval(2.0)
+                    }
+                });
+                match res {
+                    Ok(v) if v == 0.0 => {}
+                    Ok(v) => acc.fail(i, key(), format!("the zero polynomial has the value {}", v)),
+                    Err(p) => acc.fail(i, key(), format!("panicked instead of returning 0: {}", p)),
+                }
             },
         );
     }
